@@ -20,11 +20,12 @@ char* g_arena_raw; char* g_arena;
 std::vector<int> g_by_res[NRES];
 bool g_used[NSLOTS]; size_t g_slot_size[NSLOTS];
 unsigned g_next_residue; bool g_realloc_inplace; bool g_realloc_fail;
-int g_node_live; bool g_node_fail;
+int g_node_live; bool g_node_fail; bool g_alloc_fail;
 
 int slot_of(void* p) { return (int)(((char*)p - g_arena) / SLOT); }
 void* arena_alloc(size_t size) {
     if (size > SLOT) return NULLPTR;
+    if (g_alloc_fail) return NULLPTR;
     for (unsigned d = 0; d < NRES; d++) {
         unsigned res = (g_next_residue + d) % NRES;
         for (int k : g_by_res[res]) if (!g_used[k]) { g_used[k] = true; g_slot_size[k] = size; memset(g_arena + k * SLOT, 0xAA, size < 400 ? 512 : SLOT); return g_arena + k * SLOT; }
@@ -120,11 +121,16 @@ int run_case(Reader& r, bool& nontrivial, std::string& desc) {
             int file = (int)r.below(4), line = (int)r.below(1000); bool separate = r.flag();
             g_next_residue = r.below(3) ? r.below(4) : r.below(73);   // mostly a few buckets: long chains
             g_node_fail = separate && r.below(24) == 1;                // fault: the separate bookkeeping record cannot be allocated
-            char* p = det->allocMemory(g_allocs[kind], size, FILES[file], (size_t)line, separate);
-            what = sfmt("alloc(%s,%zu,%s:%d,%s,res%u%s)", KIND_NAME[kind], size, FILES[file], line, separate ? "sep" : "inl", g_next_residue, g_node_fail ? ",record-fault" : "");
-            if (g_node_fail) {   // a request that cannot be satisfied: NULL, nothing tracked, nothing kept
-                g_node_fail = false; nontrivial = true; verif::cls("alloc-record-fault");
-                V_CHECK(p == NULLPTR, "C04:fault-alloc-not-null", "%s returned a block although its record could not be allocated", what.c_str());
+            uint32_t how = r.below(12);                                // 0: through realloc(NULL, n) (an allocation too), 1: the underlying allocator fails
+            bool via_realloc = how == 0; g_alloc_fail = how == 1 && !g_node_fail;
+            char* p = via_realloc ? det->reallocMemory(g_allocs[kind], NULLPTR, size, FILES[file], (size_t)line, separate)
+                                  : det->allocMemory(g_allocs[kind], size, FILES[file], (size_t)line, separate);
+            what = sfmt("%s(%s,%zu,%s:%d,%s,res%u%s)", via_realloc ? "realloc-null" : "alloc", KIND_NAME[kind], size, FILES[file], line, separate ? "sep" : "inl", g_next_residue, g_node_fail ? ",record-fault" : g_alloc_fail ? ",allocator-fault" : "");
+            if (via_realloc) verif::cls("alloc-through-realloc-null");
+            if (g_node_fail || g_alloc_fail) {   // a request that cannot be satisfied: NULL, nothing tracked, nothing kept
+                verif::cls(g_node_fail ? "alloc-record-fault" : "alloc-allocator-fault");
+                g_node_fail = false; g_alloc_fail = false; nontrivial = true;
+                V_CHECK(p == NULLPTR, "C04:fault-alloc-not-null", "%s returned a block although the request could not be satisfied", what.c_str());
                 desc += what + ";";
                 if (int rc = totals_ok(what.c_str())) return rc;
                 continue;
@@ -138,6 +144,7 @@ int run_case(Reader& r, bool& nontrivial, std::string& desc) {
             char* p = live[r.below((uint32_t)live.size())]; Rec rec = model[p];
             if (transition_since_alloc || rec.period != cur || rec.stage != stage) nontrivial = true;
             what = sfmt("free(#%u)", rec.number);
+            if (r.below(16) == 1) { det->deallocMemory(g_allocs[r.below(3)], NULLPTR, "null.c", 1, r.flag()); verif::cls("free-null"); }   // releasing NULL: nothing happens
             det->deallocMemory(g_allocs[rec.kind], p, FILES[r.below(4)], r.below(1000), rec.separate);
             forget(p); released.push_back(p); verif::cls("free");
         } else if (k < 64) {                                           // ---- realloc (malloc family as the real entry point; any live block here)
